@@ -85,6 +85,8 @@ let site_of (c : string) : string =
   | "cfile" :: _ -> "scenario-file-request-list"
   | "sfile" :: _ -> "scenario-file-ReadAmmoConfig"
   | "tfunc" :: _ -> "templater-function-arguments"
+  | "vsrc" :: _ -> "variable-source-csv-Init"
+  | "jbad" :: pre :: _ -> if pre = "1" then "provider-json-preload" else "provider-json-fullscan"
   | "nosrc" :: fmt :: pre :: ps :: _ -> "provider-" ^ fmt ^ (if pre = "1" then "-preload" else "-fullscan") ^ (if ps = "0" then "" else "-passes")
   | ("ammo" | "pfx" | "trunc" | "badhdr") :: fmt :: file :: _ ->
       (match fmt with
@@ -171,6 +173,73 @@ let rec predict_inner (c : string) (obs : string) : string * string * bool =
          | _ -> "nofunc") in
       ignore st;
       safe p
+  | "vsrc" :: ext :: _ :: "csv" :: ign :: delim :: file :: fields ->
+      (* the file/csv variable source behind the real scenario provider constructor; encoding/csv is an oracle *)
+      let fields = List.map bytes_of_hex fields in
+      let exists = file <> "!" in
+      let d = bytes_of_hex delim in
+      let q = (match d with [] -> [n_of_int 0; n_of_int 0] | c :: _ -> [n_of_int 1; c]) @ (if exists then bytes_of_hex file else []) in
+      let p =
+        (match sfmt_of ext with
+         | FOther -> "newerr"
+         | _ ->
+           (match (if exists then ask "csv" q else Some "0 -") with
+            | None -> "oracle-miss"
+            | Some a ->
+                (match split_blank a with
+                 | [e; recs] ->
+                     let recs = if recs = "-" then [] else
+                       List.map (fun r -> List.map bytes_of_hex (String.split_on_char ',' r)) (String.split_on_char ';' recs) in
+                     (match csv_source exists fields (ign = "1") recs (e = "1") with
+                      | VPanic -> "panic"
+                      | VErr -> "newerr"
+                      | VOk rows ->
+                          (* the model's rows must be those of the specification (theorem C13_csv_source_is_spec) *)
+                          if rows <> rows_spec fields (ign = "1") recs then "model-differs-from-rows_spec"
+                          else if rows = [] then "ok -"
+                          else "ok " ^ String.concat "|" (List.map (fun row ->
+                            if row = [] then "{}" else
+                            String.concat ";" (List.map (fun (k, v) -> hex_of_bytes k ^ "=" ^ hex_of_bytes v)
+                              (List.sort (fun (a, _) (b, _) -> cmp_bytes a b) row))) rows))
+                 | _ -> "bad-oracle-answer"))) in
+      safe p
+  | ["jbad"; pre; ps; lim; file] ->
+      (* http/json provider as a whole; the specification: a file with an entity that is not an entry
+         (entity_okb, proved equivalent to what Setup accepts) delivers the entries in front of it and then
+         fails; array form and preload: fails, nothing delivered *)
+      let pre = pre = "1" in
+      let k = k_acq in
+      let nn s = n_of_int (int_of_string s) in
+      (match json_file (bytes_of_hex file) with
+       | JMiss -> safe "oracle-miss"
+       | JTokErr | JArr (false, _) -> safe "newerr"
+       | (JArr (true, toks) | JStream (_, toks)) as jf ->
+           let form = (match jf with
+             | JStream (eof, _) -> JFStream (if eof then JEof else JErr)
+             | _ -> JFArray) in
+           let ents = List.map parse_entity toks in
+           let p = (match json_provider url_parse pre (nn lim) (nn ps) (nat_of_int k) form ents with
+             | None -> "newerr"
+             | Some rs -> print_run bld_entry k rs) in
+           let good = good_prefix url_parse ents in
+           let ng = List.length good in
+           let limit = int_of_string lim in
+           if ng = List.length ents then safe p
+           else if form <> JFArray && not pre && ((limit <> 0 && limit <= ng) || ng >= k) then safe p
+           else begin
+             let want = if form = JFArray || pre then [] else
+               List.filter_map bld_entry
+                 (List.filter_map (fun d -> match entity_entry url_parse d with Inl e -> Some e | Inr _ -> None) good) in
+             let got = List.filter (fun s -> String.length s > 1 && s.[0] = 'D') (split_blank obs) in
+             let st = status_of obs in
+             let v =
+               if bad_status st then "BAD:" ^ site_of c ^ " outcome " ^ st
+               else if not (got = want && (st = "err" || st = "newerr")) then
+                 "BAD:" ^ site_of c ^ " malformed-entity-not-rejected outcome " ^ st ^ " after " ^ string_of_int (List.length got)
+                 ^ " deliveries (expected " ^ string_of_int (List.length want) ^ " then an error)"
+               else "ok" in
+             (p, v, true)
+           end)
   | ["nosrc"; fmt; pre; ps; _; file] ->
       (* passes / limit are enforced around the decoder: a run that ends at a bound without a
          single delivery is "no ammo" (provider.runFullScan / runPreloaded) *)
